@@ -1539,3 +1539,231 @@ Qed.
 
 Example ex_all_cards : forallb (fun c => andb (unedited c) (as_parsed c)) ex_cards = true.
 Proof. vm_compute. reflexivity. Qed.
+
+(* ------------------------------------------------------------------ *)
+(* 14: what is WRITTEN for the importances ('imp:<particles>=<value>' per tree) says what the object holds *)
+
+Lemma imp_denote_some : forall ts p v,
+  imp_denote ts p = Some v -> exists i t, nth_error ts i = Some t /\ mem_str p (it_parts t) = true /\ it_value t = v.
+Proof.
+  induction ts as [|t ts IH]; intros p v H; [discriminate|].
+  cbn [imp_denote] in H. destruct (mem_str p (it_parts t)) eqn:E.
+  - inversion H. exists 0, t. repeat split; assumption || reflexivity.
+  - destruct (IH p v H) as (i & u & H1 & H2 & H3). exists (Datatypes.S i), u. repeat split; assumption.
+Qed.
+
+Lemma imp_denote_none : forall ts p,
+  imp_denote ts p = None -> forall i t, nth_error ts i = Some t -> mem_str p (it_parts t) = false.
+Proof.
+  induction ts as [|t ts IH]; intros p H i u Hi; [destruct i; discriminate|].
+  cbn [imp_denote] in H. destruct (mem_str p (it_parts t)) eqn:E; [discriminate|].
+  destruct i as [|i]; cbn in Hi; [inversion Hi; subst; exact E|]. eapply IH; eassumption.
+Qed.
+
+(* if every tree of a list that lists p has the value v, and one does, the list says v *)
+Lemma imp_denote_unique : forall l p v,
+  (forall t, In t l -> mem_str p (it_parts t) = true -> it_value t = v) ->
+  (exists t, In t l /\ mem_str p (it_parts t) = true) -> imp_denote l p = Some v.
+Proof.
+  induction l as [|t l IH]; intros p v Hall (u & Hu & Hm); [destruct Hu|].
+  cbn [imp_denote]. destruct (mem_str p (it_parts t)) eqn:E.
+  - f_equal. apply Hall; [left; reflexivity|exact E].
+  - apply IH.
+    + intros x Hx. apply Hall. right. exact Hx.
+    + destruct Hu as [->|Hu]; [congruence|]. exists u. split; assumption.
+Qed.
+
+Lemma imp_denote_absent : forall l p,
+  (forall t, In t l -> mem_str p (it_parts t) = false) -> imp_denote l p = None.
+Proof.
+  induction l as [|t l IH]; intros p H; [reflexivity|].
+  cbn [imp_denote]. rewrite (H t (or_introl eq_refl)). apply IH. intros x Hx. apply H. right. exact Hx.
+Qed.
+
+Theorem imp_trees_denote_get : forall st p, imp_wf st -> imp_denote (trees st) p = imp_get st p.
+Proof.
+  intros st p (W1 & W2 & W3). unfold imp_get.
+  destruct (imp_denote (trees st) p) as [v|] eqn:D.
+  - destruct (imp_denote_some _ _ _ D) as (i & t & Hi & Hm & Hv).
+    rewrite (W3 p i t Hi Hm), Hi. cbn. rewrite Hv. reflexivity.
+  - destruct (lookup p (owner st)) as [i|] eqn:L; [|reflexivity].
+    destruct (W1 p i L) as (t & Hi & Hm). rewrite (imp_denote_none _ _ D i t Hi) in Hm. discriminate.
+Qed.
+
+Lemma written_idx_in : forall o seen i,
+  In i (written_idx o seen) <-> ((exists q, In (q, i) o) /\ ~ In i seen).
+Proof.
+  induction o as [|[q j] o IH]; intros seen i.
+  - cbn. split; [intros []|intros ((q & []) & _)].
+  - cbn [written_idx]. destruct (existsb (Nat.eqb j) seen) eqn:E.
+    + rewrite IH. split.
+      * intros ((q' & Hq) & Hn). split; [exists q'; right; exact Hq|exact Hn].
+      * intros ((q' & [Hq|Hq]) & Hn).
+        -- inversion Hq; subst. exfalso. apply Hn. apply existsb_exists in E. destruct E as (x & Hx & Ex).
+           apply Nat.eqb_eq in Ex. subst. exact Hx.
+        -- split; [exists q'; exact Hq|exact Hn].
+    + cbn [In]. rewrite IH. split.
+      * intros [->|((q' & Hq) & Hn)].
+        -- split; [exists q; left; reflexivity|].
+           intro Hs. assert (X : existsb (Nat.eqb i) seen = true)
+             by (apply existsb_exists; exists i; split; [exact Hs|apply Nat.eqb_refl]). congruence.
+        -- split; [exists q'; right; exact Hq|]. intro Hs. apply Hn. right. exact Hs.
+      * intros ((q' & [Hq|Hq]) & Hn).
+        -- inversion Hq; subst. left. reflexivity.
+        -- destruct (Nat.eq_dec j i) as [->|N]; [left; reflexivity|].
+           right. split; [exists q'; exact Hq|]. intros [Hs|Hs]; [congruence|exact (Hn Hs)].
+Qed.
+
+Lemma imp_written_in : forall st t,
+  In t (imp_written st) <-> exists i, (exists q, In (q, i) (owner st)) /\ nth_error (trees st) i = Some t.
+Proof.
+  intros st t. unfold imp_written. rewrite in_flat_map. split.
+  - intros (i & Hi & Ht). apply written_idx_in in Hi. destruct Hi as (Hq & _).
+    destruct (nth_error (trees st) i) as [u|] eqn:E; [|destruct Ht].
+    destruct Ht as [->|[]]. exists i. split; [exact Hq|exact E].
+  - intros (i & Hq & Hi). exists i. split.
+    + apply written_idx_in. split; [exact Hq|intros []].
+    + rewrite Hi. left. reflexivity.
+Qed.
+
+(* the written parameters say, for every particle, exactly what the Importance object answers *)
+Theorem imp_written_denotes : forall st p, imp_wf st -> imp_denote (imp_written st) p = imp_get st p.
+Proof.
+  intros st p W. rewrite <- (imp_trees_denote_get st p W). destruct W as (W1 & W2 & W3).
+  destruct (imp_denote (trees st) p) as [v|] eqn:D.
+  - destruct (imp_denote_some _ _ _ D) as (i & t & Hi & Hm & Hv).
+    apply imp_denote_unique.
+    + intros u Hu Hmu. apply imp_written_in in Hu. destruct Hu as (j & _ & Hj).
+      assert (Eij : i = j) by apply (W2 p i j t u Hi Hj Hm Hmu). subst j.
+      rewrite Hi in Hj. inversion Hj as [Etu]. rewrite <- Etu. exact Hv.
+    + exists t. split; [|exact Hm]. apply imp_written_in. exists i. split; [|exact Hi].
+      exists p. apply lookup_in. apply (W3 p i t Hi Hm).
+  - apply imp_denote_absent. intros u Hu. apply imp_written_in in Hu. destruct Hu as (j & _ & Hj).
+    apply (imp_denote_none _ _ D j u Hj).
+Qed.
+
+(* imp_set keeps the state well formed *)
+Lemma nth_error_set_nth : forall (A : Type) (l : list A) i j x,
+  nth_error (set_nth l i x) j = if Nat.eqb i j then (match nth_error l i with Some _ => Some x | None => None end)
+                                else nth_error l j.
+Proof.
+  induction l as [|y l IH]; intros [|i] [|j] x; simpl; try reflexivity.
+  - destruct (Nat.eqb i j); reflexivity.
+  - apply IH.
+Qed.
+
+Lemma mem_filter_neq : forall q p l, q <> p ->
+  mem_str q (filter (fun x => negb (String.eqb x p)) l) = mem_str q l.
+Proof.
+  intros q p l Hne. induction l as [|x l IH]; [reflexivity|].
+  cbn [filter]. destruct (String.eqb x p) eqn:E; cbn [negb].
+  - apply String.eqb_eq in E. subst x. unfold mem_str in *. cbn [existsb].
+    assert (X : String.eqb q p = false) by (apply String.eqb_neq; exact Hne). rewrite X. exact IH.
+  - unfold mem_str in *. cbn [existsb]. rewrite IH. reflexivity.
+Qed.
+
+Lemma mem_filter_self : forall p l, mem_str p (filter (fun x => negb (String.eqb x p)) l) = false.
+Proof.
+  intros p l. induction l as [|x l IH]; [reflexivity|].
+  cbn [filter]. destruct (String.eqb x p) eqn:E; cbn [negb]; [exact IH|].
+  unfold mem_str in *. cbn [existsb]. rewrite IH, String.eqb_sym, E. reflexivity.
+Qed.
+
+Theorem imp_set_wf : forall st p v, imp_wf st -> imp_wf (imp_set st p v).
+Proof.
+  intros st p v W. pose proof W as (W1 & W2 & W3). unfold imp_set.
+  destruct (lookup p (owner st)) as [i|] eqn:Lp; [|exact W].
+  destruct (nth_error (trees st) i) as [t|] eqn:Ti; [|exact W].
+  assert (Hil : i < List.length (trees st)) by (apply nth_error_Some; congruence).
+  assert (Hpt : mem_str p (it_parts t) = true).
+  { destruct (W1 p i Lp) as (t' & Ht' & Hm). rewrite Ti in Ht'. inversion Ht'. subst. exact Hm. }
+  destruct (shares st p i) eqn:Sh.
+  - (* the particle gets a new tree at index n *)
+    set (n := List.length (trees st)).
+    set (t_old := {| it_parts := filter (fun q => negb (String.eqb q p)) (it_parts t); it_value := it_value t |}).
+    set (t_new := {| it_parts := [p]; it_value := v |}).
+    (* the trees afterwards *)
+    assert (Nth : forall j, nth_error (set_nth (trees st) i t_old ++ [t_new]) j =
+                  if Nat.eqb j n then Some t_new else if Nat.eqb i j then Some t_old else nth_error (trees st) j).
+    { intros j. destruct (Nat.eqb j n) eqn:En.
+      - apply Nat.eqb_eq in En. subst j. rewrite nth_error_app2 by (rewrite set_nth_length; unfold n; lia).
+        rewrite set_nth_length. unfold n. rewrite Nat.sub_diag. reflexivity.
+      - apply Nat.eqb_neq in En. destruct (Nat.lt_ge_cases j n) as [Hlt|Hge].
+        + rewrite nth_error_app1 by (rewrite set_nth_length; exact Hlt).
+          rewrite nth_error_set_nth, Ti. reflexivity.
+        + rewrite nth_error_app2 by (rewrite set_nth_length; exact Hge). rewrite set_nth_length.
+          destruct (j - List.length (trees st)) eqn:Dj; [unfold n in *; lia|].
+          assert (Ni : Nat.eqb i j = false) by (apply Nat.eqb_neq; unfold n in *; lia). rewrite Ni.
+          cbn. destruct n0; cbn; symmetry; apply nth_error_None; unfold n in *; lia. }
+    assert (Lown : forall q, q <> p -> lookup q (set_owner (owner st) p i n false) = lookup q (owner st))
+      by (intros; apply lookup_set_owner_other; assumption).
+    assert (Lp' : lookup p (set_owner (owner st) p i n false) = Some n)
+      by (apply lookup_set_owner_new; exists p; apply lookup_in; exact Lp).
+    (* which trees list a particle afterwards *)
+    assert (Lists : forall q j u, nth_error (set_nth (trees st) i t_old ++ [t_new]) j = Some u ->
+                    mem_str q (it_parts u) = true ->
+                    (q = p /\ j = n) \/ (q <> p /\ exists u0, nth_error (trees st) j = Some u0 /\ mem_str q (it_parts u0) = true)).
+    { intros q j u Hj Hm. rewrite Nth in Hj. destruct (Nat.eqb j n) eqn:En.
+      - inversion Hj. subst u. cbn in Hm. rewrite orb_false_r in Hm. apply String.eqb_eq in Hm. subst q.
+        left. split; [reflexivity|apply Nat.eqb_eq; exact En].
+      - destruct (Nat.eqb i j) eqn:Ei.
+        + inversion Hj. subst u. apply Nat.eqb_eq in Ei. subst j. cbn [it_parts t_old] in Hm.
+          destruct (String.eqb q p) eqn:Eq.
+          * apply String.eqb_eq in Eq. subst q. rewrite mem_filter_self in Hm. discriminate.
+          * apply String.eqb_neq in Eq. right. split; [exact Eq|]. exists t. split; [exact Ti|].
+            rewrite mem_filter_neq in Hm by exact Eq. exact Hm.
+        + destruct (String.eqb q p) eqn:Eq.
+          * apply String.eqb_eq in Eq. subst q. exfalso.
+            apply Nat.eqb_neq in Ei. apply Ei. apply (W2 p i j t u Ti Hj Hpt Hm).
+          * apply String.eqb_neq in Eq. right. split; [exact Eq|]. exists u. split; assumption. }
+    unfold imp_wf. cbn [trees owner]. split; [|split].
+    + intros q j Hq. destruct (String.eqb q p) eqn:Eq.
+      * apply String.eqb_eq in Eq. subst q. rewrite Lp' in Hq. inversion Hq. subst j.
+        exists t_new. split; [rewrite Nth, Nat.eqb_refl; reflexivity|]. cbn. rewrite String.eqb_refl. reflexivity.
+      * apply String.eqb_neq in Eq. rewrite (Lown q Eq) in Hq.
+        destruct (W1 q j Hq) as (u & Hu & Hm).
+        assert (Hjn : Nat.eqb j n = false) by (apply Nat.eqb_neq; assert (j < n) by (apply nth_error_Some; congruence); lia).
+        rewrite Nth, Hjn. destruct (Nat.eqb i j) eqn:Ei.
+        -- apply Nat.eqb_eq in Ei. subst j. rewrite Ti in Hu. inversion Hu. subst u.
+           exists t_old. split; [reflexivity|]. cbn [it_parts t_old]. rewrite mem_filter_neq by exact Eq. exact Hm.
+        -- exists u. split; assumption.
+    + intros q j k u w Hj Hk Hmu Hmw.
+      destruct (Lists q j u Hj Hmu) as [(-> & ->)|(Nq & u0 & Hu0 & Hm0)];
+        destruct (Lists _ k w Hk Hmw) as [(E1 & ->)|(Nq' & w0 & Hw0 & Hmw0)]; try congruence.
+      apply (W2 q j k u0 w0 Hu0 Hw0 Hm0 Hmw0).
+    + intros q j u Hj Hm.
+      destruct (Lists q j u Hj Hm) as [(-> & ->)|(Nq & u0 & Hu0 & Hm0)]; [exact Lp'|].
+      rewrite (Lown q Nq). apply (W3 q j u0 Hu0 Hm0).
+  - (* the particle owns its tree alone: only the value changes *)
+    set (t' := {| it_parts := it_parts t; it_value := v |}).
+    assert (Parts : forall j u, nth_error (set_nth (trees st) i t') j = Some u ->
+                    exists u0, nth_error (trees st) j = Some u0 /\ it_parts u0 = it_parts u).
+    { intros j u Hj. rewrite nth_error_set_nth, Ti in Hj. destruct (Nat.eqb i j) eqn:Ei.
+      - apply Nat.eqb_eq in Ei. subst j. inversion Hj. subst u. exists t. split; [exact Ti|reflexivity].
+      - exists u. split; [exact Hj|reflexivity]. }
+    unfold imp_wf. cbn [trees owner]. split; [|split].
+    + intros q j Hq. destruct (W1 q j Hq) as (u & Hu & Hm).
+      rewrite nth_error_set_nth, Ti. destruct (Nat.eqb i j) eqn:Ei.
+      * apply Nat.eqb_eq in Ei. subst j. rewrite Ti in Hu. inversion Hu. subst u. exists t'. split; [reflexivity|exact Hm].
+      * exists u. split; assumption.
+    + intros q j k u w Hj Hk Hmu Hmw.
+      destruct (Parts j u Hj) as (u0 & Hu0 & Eu). destruct (Parts k w Hk) as (w0 & Hw0 & Ew).
+      rewrite <- Eu in Hmu. rewrite <- Ew in Hmw. apply (W2 q j k u0 w0 Hu0 Hw0 Hmu Hmw).
+    + intros q j u Hj Hm. destruct (Parts j u Hj) as (u0 & Hu0 & Eu). rewrite <- Eu in Hm.
+      apply (W3 q j u0 Hu0 Hm).
+Qed.
+
+(* C03, at the level of what is written: after setting particle p, the written importances say v for p and what
+   they said before for every other particle — also for the particles that shared p's entry *)
+Theorem imp_written_after_set : forall st p v q i,
+  imp_wf st -> lookup p (owner st) = Some i ->
+  imp_denote (imp_written (imp_set st p v)) q =
+    if String.eqb q p then Some v else imp_denote (imp_written st) q.
+Proof.
+  intros st p v q i W Lp.
+  rewrite (imp_written_denotes _ q (imp_set_wf st p v W)), (imp_written_denotes st q W).
+  destruct (String.eqb q p) eqn:E.
+  - apply String.eqb_eq in E. subst q. destruct W as (W1 & _). destruct (W1 p i Lp) as (t & Ht & _).
+    eapply imp_set_get; eassumption.
+  - apply String.eqb_neq in E. apply imp_independent; [apply imp_wf_in_range; exact W|exact E].
+Qed.
